@@ -1462,5 +1462,14 @@ pub fn c18_stream_spaces(tier: Tier) -> Vec<Box<dyn Space>> {
     for sk in small_shapes().into_iter().chain(extnum_shapes()) {
         v.push(Box::new(Prefixes { sk, oracle: StreamPrefix, label: "C18 stream parser" }));
     }
+    // each section's body in turn laid out last (so that a cut removes bytes of exactly that construct)
+    let encs: Vec<Enc> = if tier == Tier::Quick { vec![ENCS[2]] } else { ENCS.to_vec() };
+    for e in encs {
+        for sk in rotated_skeletons(e) {
+            if sk.name.ends_with("no-phdrs") || tier == Tier::Thorough {
+                v.push(Box::new(Prefixes { sk, oracle: StreamPrefix, label: "C18 stream parser" }));
+            }
+        }
+    }
     v
 }
